@@ -719,7 +719,7 @@ func (c *updater) buildBackendOAuth(d *backData) {
 			continue
 		}
 
-		if authURL := d.mapper.Get(ingtypes.BackAuthURL); authURL.Value != "" {
+		if authURL := config.Get(ingtypes.BackAuthURL); authURL.Value != "" {
 			// auth-url was already processed and its result must be preserved,
 			// including the deny of all the requests if it could not be configured
 			c.logger.Warn("ignoring oauth configuration on %v: auth-url was configured and has precedence", authURL.Source)
